@@ -9,6 +9,7 @@ import (
 	"os/exec"
 	"strings"
 	"sync"
+	"sync/atomic"
 	"time"
 
 	"github.com/TarsCloud/TarsGo/tars"
@@ -28,6 +29,14 @@ func init() {
 type recWriter struct {
 	rec    **tr.Rec
 	prefix bool // ask the logger for the time|file|level| prefix (text path through writeLine)
+	// slow writer (window scenarios): the Write event is recorded at the hand-over (entry of Write), then the writer
+	// stays inside Write for up to slow, or until FlushLogger has returned (flushRet closed), whichever comes first.  A
+	// flusher that is still handing entries over when FlushLogger returns is thereby seen in the order of the recorded
+	// events (FlushRet before the remaining Write events) and not some time later.  Both fields are set while the
+	// flusher is held at the gate.
+	slow     time.Duration
+	flushRet chan struct{}
+	writes   int64 // hand-overs so far (atomic)
 }
 
 // entryOf parses "g i" from the end of a written line (after the last '|' of the prefix, if there is one).
@@ -43,6 +52,13 @@ func entryOf(v []byte) (g, i int) {
 func (w *recWriter) Write(v []byte) {
 	g, i := entryOf(v)
 	(*w.rec).Emit("Write", "g", g, "i", i, "n", len(v))
+	atomic.AddInt64(&w.writes, 1)
+	if w.slow > 0 {
+		select {
+		case <-w.flushRet:
+		case <-time.After(w.slow):
+		}
+	}
 }
 func (w *recWriter) NeedPrefix() bool { return w.prefix }
 
@@ -65,6 +81,7 @@ func logPanicChild(args []string) error {
 	pauseUs := fs.Int("pause-us", 100, "writer delay per entry")
 	text := fs.Bool("text", false, "log through Infof instead of WriteLog")
 	via := fs.String("via", "checkpanic", "how the process ends: checkpanic (a panic under tars.CheckPanic) | runinit (tars.Run panics while it reads a configuration with an unusable TLS key)")
+	window := fs.Bool("window", false, "hold the flusher between its selects (queue found empty) while the entries are logged; release it a moment after the exit path has been entered")
 	fs.Parse(args)
 	f, err := os.OpenFile(*path, os.O_CREATE|os.O_WRONLY|os.O_APPEND, 0644)
 	if err != nil {
@@ -74,6 +91,44 @@ func logPanicChild(args []string) error {
 	rogger.VerifSetFlushTimeout(10 * time.Second)
 	lg := rogger.GetLogger("verifpanic")
 	lg.SetWriter(&fileWriter{f: f, pause: time.Duration(*pauseUs) * time.Microsecond})
+	logged := func() {}
+	if *window {
+		// the flusher of this process is held at the gate after it found the queue empty; it is released a few milliseconds
+		// after the last logging call returned, i.e. (usually) after the exit path has requested the flush: both cases of the
+		// blocking select are ready then.  An arrival at the gate after the release means the select took the queue case; it
+		// is noted in <file>.between for the parent (evidence only).
+		var state int32 // 0: hold the next arrival, 1: holding, 2: released
+		reached, release := make(chan struct{}), make(chan struct{})
+		vhook.Set(func(point string, a ...interface{}) {
+			if point != "rogger.flush.between" {
+				return
+			}
+			if atomic.CompareAndSwapInt32(&state, 0, 1) {
+				close(reached)
+				<-release
+				return
+			}
+			if atomic.LoadInt32(&state) == 2 {
+				os.WriteFile(*path+".between", []byte("1"), 0644)
+			}
+		})
+		atomic.StoreInt32(&state, 3)
+		rogger.FlushLogger() // ends the flusher started by the package's init
+		atomic.StoreInt32(&state, 0)
+		rogger.VerifResetFlusher()
+		select {
+		case <-reached:
+		case <-time.After(2 * time.Second):
+			os.Exit(3)
+		}
+		logged = func() {
+			go func() {
+				time.Sleep(4 * time.Millisecond)
+				atomic.StoreInt32(&state, 2)
+				close(release)
+			}()
+		}
+	}
 	logAll := func() {
 		for i := 1; i <= *n; i++ {
 			if *text {
@@ -82,6 +137,7 @@ func logPanicChild(args []string) error {
 				lg.WriteLog([]byte(fmt.Sprintf("%d %d", 1, i)))
 			}
 		}
+		logged()
 	}
 	if *via == "runinit" {
 		// the application reads its configuration inside Run: an unusable TLS key makes it panic there, and the panic leaves Run
@@ -102,19 +158,27 @@ func logPanicChild(args []string) error {
 
 // panicScenario runs the child and turns what it left in the file into a trace: the n logging calls returned before the
 // panic (one goroutine), the exit path requests the flush, the writes are what the file holds, the process is gone.
-func panicScenario(rng *rand.Rand, dir string, sc int) ([]tr.Ev, error) {
+// window: the child's flusher is held between its selects while the entries are logged (see logPanicChild); drained reports
+// that the blocking select took the flush case while the entries were still queued (no arrival at the gate after the release).
+func panicScenario(rng *rand.Rand, dir string, sc int, window bool) (evs []tr.Ev, drained bool, err error) {
 	n := 5 + rng.Intn(36)
 	path := fmt.Sprintf("%s/panic-%d.log", dir, sc)
 	via := []string{"checkpanic", "runinit"}[sc/25%2]
+	kind := "panic-exit"
+	if window {
+		kind = "panic-exit-window"
+		if sc%3 == 0 {
+			n = 1 + rng.Intn(4) // few entries as well: the queue occupancy at the flush is what varies
+		}
+	}
 	cmd := exec.Command(os.Args[0], "logpanic-child", "-n", fmt.Sprint(n), "-file", path, "-pause-us", fmt.Sprint(50+rng.Intn(400)),
-		fmt.Sprintf("-text=%v", rng.Intn(2) == 0), "-via", via)
+		fmt.Sprintf("-text=%v", rng.Intn(2) == 0), "-via", via, fmt.Sprintf("-window=%v", window))
 	cmd.Dir = dir
 	out, _ := cmd.CombinedOutput()
 	if cmd.ProcessState == nil || cmd.ProcessState.ExitCode() == 0 || cmd.ProcessState.ExitCode() == 3 {
-		return nil, fmt.Errorf("panic child did not exit through CheckPanic: %s", string(out))
+		return nil, false, fmt.Errorf("panic child did not exit through CheckPanic: %s", string(out))
 	}
-	var evs []tr.Ev
-	evs = append(evs, tr.Ev{"e": "Config", "k": 10000, "kind": "panic-exit", "via": via})
+	evs = append(evs, tr.Ev{"e": "Config", "k": 10000, "kind": kind, "via": via})
 	for i := 1; i <= n; i++ {
 		evs = append(evs, tr.Ev{"e": "LogCall", "g": 1, "i": i}, tr.Ev{"e": "LogRet", "g": 1, "i": i})
 	}
@@ -127,10 +191,15 @@ func panicScenario(rng *rand.Rand, dir string, sc int) ([]tr.Ev, error) {
 		}
 		f.Close()
 	}
+	if window {
+		_, e := os.Stat(path + ".between")
+		drained = e != nil
+	}
 	os.Remove(path)
 	os.Remove(path + ".conf")
+	os.Remove(path + ".between")
 	evs = append(evs, tr.Ev{"e": "FlushRet"}, tr.Ev{"e": "Reset"})
-	return evs, nil
+	return evs, drained, nil
 }
 
 // fileScenario: the framework's own size-rolled file writer.  Three entries, a flush, more than ten seconds pass (the writer
@@ -196,7 +265,10 @@ func logflushTrace(args []string) error {
 	seed := fs.Int64("seed", 1, "seed")
 	num := fs.Int("n", 100, "scenarios")
 	out := fs.String("out", "trace.ndjson", "output file")
+	nwin := fs.Int("window", 0, "additional scenarios through the window with a slow writer (shape 6), run after the -n scenarios")
+	slowUs := fs.Int("slow-us", 3000, "window scenarios: how long the writer stays inside Write after the hand-over (or until FlushLogger returned)")
 	hookCount := 0
+	var afterRelease int32 // arrivals at the gate since the last release (window scenarios)
 	fs.Parse(args)
 	rng := rand.New(rand.NewSource(*seed))
 	var rec *tr.Rec
@@ -207,6 +279,7 @@ func logflushTrace(args []string) error {
 		}
 		hookCount++
 		rec.Emit("Between")
+		atomic.AddInt32(&afterRelease, 1)
 		g.mu.Lock()
 		if !g.armed {
 			g.mu.Unlock()
@@ -235,8 +308,24 @@ func logflushTrace(args []string) error {
 		return err
 	}
 	lost := 0
-	for sc := 0; sc < *num; sc++ {
-		if sc%25 == 12 { // the framework's file writer across a re-open
+	winRuns, winDrained, winChild, winChildDrained, winStalled := 0, 0, 0, 0, 0
+	for sc := 0; sc < *num+*nwin; sc++ {
+		windowOnly := sc >= *num
+		if windowOnly && (sc-*num)%20 == 19 { // the window inside a real process that exits through a panic
+			evs, drained, err := panicScenario(rng, scratch, sc, true)
+			if err != nil {
+				return err
+			}
+			winChild++
+			if drained {
+				winChildDrained++
+			}
+			for _, ev := range evs {
+				w.Write(ev)
+			}
+			continue
+		}
+		if !windowOnly && sc%25 == 12 { // the framework's file writer across a re-open
 			evs, err := fileScenario(rng, scratch, sc, lg, rw)
 			if err != nil {
 				return err
@@ -246,8 +335,8 @@ func logflushTrace(args []string) error {
 			}
 			continue
 		}
-		if sc%25 == 24 { // the panic exit of a real process
-			evs, err := panicScenario(rng, scratch, sc)
+		if !windowOnly && sc%25 == 24 { // the panic exit of a real process
+			evs, _, err := panicScenario(rng, scratch, sc, false)
 			if err != nil {
 				return err
 			}
@@ -262,11 +351,32 @@ func logflushTrace(args []string) error {
 		if shape >= 4 {
 			qcap = 2 // the queue at its boundary: logging calls block until the flusher makes room
 		}
+		winK, winPre := 0, 0
+		if windowOnly {
+			// shape 6: the flush request meets a non-empty queue at the blocking select.  k entries are in the queue (1-5; with
+			// the small queue exactly as many as it holds), pre entries went through the flusher before it was held
+			shape = 6
+			winK, winPre = 1+rng.Intn(5), rng.Intn(3)
+			qcap = 10000
+			if rng.Intn(4) == 0 {
+				qcap, winK, winPre = 2, 2, 0 // held at the first poll, the two entries fill the queue exactly
+			}
+		}
 		rogger.VerifSetQueueCap(qcap)
 		api := rng.Intn(3) // 0: WriteLog (raw), 1: Infof (formatted text path through writeLine), 2: Trace
 		text := api == 1
 		rw.prefix = api != 0 && rng.Intn(2) == 0
-		rec.Emit("Config", "k", qcap, "kind", fmt.Sprintf("shape%d api=%d prefix=%v", shape, api, rw.prefix))
+		kind := fmt.Sprintf("shape%d api=%d prefix=%v", shape, api, rw.prefix)
+		if windowOnly {
+			kind = fmt.Sprintf("window k=%d pre=%d api=%d prefix=%v", winK, winPre, api, rw.prefix)
+		}
+		rec.Emit("Config", "k", qcap, "kind", kind)
+		if windowOnly && winPre == 0 {
+			// nothing is logged before the hold: the new flusher finds the queue empty at its first poll and is held at once
+			g.mu.Lock()
+			g.armed, g.waiting, g.release = true, make(chan struct{}), make(chan struct{})
+			g.mu.Unlock()
+		}
 		rogger.VerifResetFlusher()
 		ng := 1 + rng.Intn(3)
 		logOne := func(gid, i int) {
@@ -287,6 +397,79 @@ func logflushTrace(args []string) error {
 			}
 		}
 		switch shape {
+		case 6:
+			// the window with a slow writer: hold the flusher between its selects (queue found empty), log k entries (one or two
+			// goroutines), request the flush, release the flusher once the request has been made.  Both cases of the blocking
+			// select are ready; whichever it takes, every one of the k entries must have been handed to the writer when
+			// FlushLogger returns.  The writer stays inside Write after each hand-over (recWriter.slow), so a flusher that
+			// signals completion while entries are still queued is seen at the return of FlushLogger.
+			g.mu.Lock()
+			if winPre > 0 {
+				g.armed, g.waiting, g.release = true, make(chan struct{}), make(chan struct{})
+			}
+			wch, rch := g.waiting, g.release
+			g.mu.Unlock()
+			logN(1, 1, winPre)
+			select {
+			case <-wch:
+			case <-time.After(2 * time.Second):
+				return fmt.Errorf("flusher never reached the gate")
+			}
+			wbase := atomic.LoadInt64(&rw.writes)
+			inq := rogger.VerifQueueLen() // entries logged before the hold that the flusher had not taken yet (it was held at its first arrival)
+			flushRet := make(chan struct{})
+			rw.slow, rw.flushRet = time.Duration(*slowUs)*time.Microsecond, flushRet
+			k1 := winK
+			if winK >= 2 && rng.Intn(2) == 0 {
+				k1 = 1 + rng.Intn(winK-1)
+			}
+			// the k logging calls (never more than the queue has room for) run in goroutines of their own: should one of them
+			// not return while the flusher is held, the flusher is released after a second and the run goes on as a plain
+			// "log, then flush" scenario; the trace is judged all the same
+			var wg sync.WaitGroup
+			k2 := winK - k1
+			if k2 > 0 && rng.Intn(2) == 0 {
+				wg.Add(2)
+				go func() { defer wg.Done(); logN(1, winPre+1, k1) }()
+				go func() { defer wg.Done(); logN(2, 1, k2) }()
+			} else {
+				wg.Add(1)
+				go func() { defer wg.Done(); logN(1, winPre+1, k1); logN(2, 1, k2) }()
+			}
+			loggedAll := make(chan struct{})
+			go func() { wg.Wait(); close(loggedAll) }()
+			released := false
+			select {
+			case <-loggedAll:
+			case <-time.After(time.Second):
+				released = true
+				winStalled++
+				close(rch)
+				<-loggedAll
+			}
+			done := make(chan struct{})
+			go func() {
+				rec.Emit("FlushCall")
+				rogger.FlushLogger()
+				rec.Emit("FlushRet")
+				close(flushRet)
+				close(done)
+			}()
+			time.Sleep(time.Duration(300+rng.Intn(700)) * time.Microsecond) // let syncCancel happen first
+			if !released {
+				atomic.StoreInt32(&afterRelease, 0)
+				close(rch)
+			}
+			<-done
+			winRuns++
+			if !released && atomic.LoadInt32(&afterRelease) == 0 {
+				winDrained++ // no arrival at the gate between the release and the return: the select took the flush case
+			}
+			// a flusher that signalled too early gets the time to finish, so that the next scenario starts clean
+			for dl := time.Now().Add(2 * time.Second); (atomic.LoadInt64(&rw.writes)-wbase < int64(inq+winK) || rogger.VerifQueueLen() > 0) && time.Now().Before(dl); {
+				time.Sleep(100 * time.Microsecond)
+			}
+			rw.slow = 0
 		case 4, 5:
 			// backlog at the boundary: the flusher is held at the gate while 1-2 goroutines log more entries than the queue
 			// holds (their calls block), then it is released; afterwards one flush
@@ -383,6 +566,6 @@ func logflushTrace(args []string) error {
 	if err := w.Close(); err != nil {
 		return err
 	}
-	fmt.Println(*num, hookCount, lost)
+	fmt.Println(*num+*nwin, hookCount, lost, winRuns, winDrained, winChild, winChildDrained, winStalled)
 	return nil
 }
